@@ -64,7 +64,7 @@ LABELS = ["Axon", "Dendrite", "axon", "DENDRITE", "AXON", "dendrite", "DenDrite"
 COLORS = ["Red", "Blue", "MoneyGreen", "Yellow", "RGB", "DarkCyan"]
 NUMS = ["0", "1", "-1", "2.5", "-3.25", "+4", ".5", "-.75", "1e-3", "1E+2", "12.", "007", "123456.789", "0.0001",
         "-0.00005", "3.4e38", "1e-40", "65536", "0.1", "9.999"]
-BAD_WORDS = ["abc", "x1", "1..2", "--3", "1e", "1,5", "0x10", "-", "e5", "1.2.3"]
+BAD_WORDS = ["abc", "x1", "1..2", "--3", "1e", "1,5", "0x10", "-", "e5", "1.2.3", "2,", ",3", "4;"]
 SEPS = ["", " ", " ", "  ", "\t", "\n", "\n    ", " \n\t", "\n\n"]
 
 
@@ -130,6 +130,8 @@ def add_deco(rng: Prng, body: dict | None, p: float, top: bool = True):
                 d[str(i)] = [x for x in d[str(i)] if x[0] == "color"] or [["color", "Red"]]
     if rng.chance(p):
         d["end"] = gen_deco(rng)
+    if body.get("split") is not None and rng.chance(p):
+        d["tail"] = gen_deco(rng)  # after the closing bracket of the split (`) ; End of split`)
     if d:
         body["deco"] = d
     for a in body.get("split") or []:
